@@ -498,11 +498,11 @@ def check_identifier_encoder(ctx):
 def run(ctx):
     ctx.explanation = (
         'Agreement of finite tables, statically extracted: for each dialect and each quoted-string token the literal syntax the '
-        'lexer pattern admits (delimiter, backslash escapes, doubled delimiter) is derived from the pattern; the decoder is read '
-        'from the grammar action (replace/strip/slice chain, or helper with one re.sub whose callback is partially evaluated on '
-        'the finite set of escape forms) and compared, on a generated family of accepted literals covering every escape form and '
-        'their combinations, with the reference SQL denotation; structural rules forbid sequential global replaces and strip() '
-        'when the pattern lets content begin/end with the delimiter. The encoder Constant.get_string (replace chain) is compared '
+        'lexer pattern admits (delimiter, backslash escapes, doubled delimiter) is derived from the pattern; the decoder - the '
+        'grammar action with the helpers it calls, interpreted by the fail-closed AST interpreter sa/interp.py on the token text, nothing '
+        'is imported or executed - is compared, on a generated family of accepted literals covering every escape form and '
+        'their combinations, with the reference SQL denotation (sequential global replaces and strip() of delimiters fail on members of '
+        'that family). The encoder Constant.get_string (interpreted the same way) is compared '
         'with each dialect\'s own literal syntax on value probes (quotes, backslashes, comment markers ...). Same for @variables '
         '(decoder per pattern alternative, printer read-back), identifier paths (dot-splitting only on ID text - provenance over '
         'every grammar action and production; no case change) and the identifier printer. NOT decided: equality for all '
